@@ -473,6 +473,11 @@ class Interp:
             gref = self.a.res.resolve(n, self.m)
             if gref in self.world.globals:
                 return self.world.globals[gref]
+            if gref and gref.startswith('ext:') and gref not in self.call_models:
+                try:
+                    return ext_constant(gref[4:])
+                except KeyError:
+                    pass
             try:
                 val = self.a.folder.fold(n, self.m)
             except Unfoldable:
@@ -829,6 +834,17 @@ class Interp:
         for key in (ref, text):
             if key in self.call_models:
                 return self.call_models[key](*args, **kwargs)
+        if ref and ref.startswith('ext:operator.') and ref not in self.call_models and len(args) == 2 and not kwargs:
+            opname = ref.rpartition('.')[2].strip('_')
+            cmpmap = {'lt': ast.Lt, 'le': ast.LtE, 'eq': ast.Eq, 'ne': ast.NotEq, 'gt': ast.Gt, 'ge': ast.GtE, 'is_': ast.Is, 'contains': None}
+            binmap = {'add': ast.Add, 'sub': ast.Sub, 'mul': ast.Mult, 'truediv': ast.Div, 'floordiv': ast.FloorDiv, 'mod': ast.Mod,
+                      'pow': ast.Pow, 'and': ast.BitAnd, 'or': ast.BitOr, 'xor': ast.BitXor}
+            if opname in cmpmap and cmpmap[opname] is not None:
+                return self._compare(cmpmap[opname](), args[0], args[1], None)
+            if opname == 'contains':
+                return self._contains(args[0], args[1])
+            if opname in binmap:
+                return self._binop(binmap[opname](), args[0], args[1])
         if ref and ref.startswith('ext:') and ref not in self.call_models:
             done, res = self._pure_call(ref[4:], args, kwargs)
             if done:
@@ -1186,6 +1202,8 @@ class Interp:
         """Attribute of an abstract instance that is not an instance field: run-time class attribute, property, method, constant."""
         if attr == '__class__':
             return Ref(cref)
+        if attr == '__dict__':
+            return inst.f           # the attribute dictionary of the abstract instance (writes go through)
         for cm_, cnode_ in self.a.res.mro(cref):
             key_ = (self.a.res.class_ref(cm_, cnode_), attr)
             if key_ in self.world.classattrs:
@@ -1648,3 +1666,69 @@ class Interp:
         t = d.func if isinstance(d, ast.Call) else d
         r = self.a.res.resolve(t, self.m) if isinstance(t, (ast.Name, ast.Attribute)) else None
         return r in ('ext:functools.wraps',)
+
+
+# ----------------------------------------------------------------------------------------------------------
+# constants of installed libraries (openpyxl's regular expressions ...): folded from the library's source text
+# ----------------------------------------------------------------------------------------------------------
+_EXT_CONST_CACHE = {}
+
+
+def _site_dirs():
+    import glob
+    import sys as _sys
+    out = list(glob.glob('/venv/lib/python*/site-packages'))
+    out += [p for p in _sys.path if p.endswith('site-packages')]
+    return out
+
+
+def ext_constant(dotted_name):
+    """Value of a module-level constant of an installed pure-Python library (strings, numbers, re.compile of those), or
+    raises KeyError. Only simple assignments are folded, in source order; nothing of the library is imported or run."""
+    if dotted_name in _EXT_CONST_CACHE:
+        v = _EXT_CONST_CACHE[dotted_name]
+        if isinstance(v, KeyError):
+            raise v
+        return v
+    import os
+    modname, _, name = dotted_name.rpartition('.')
+    path = None
+    for d in _site_dirs():
+        cand = os.path.join(d, *modname.split('.')) + '.py'
+        if os.path.exists(cand):
+            path = cand
+            break
+    try:
+        if path is None:
+            raise KeyError(dotted_name)
+        tree = ast.parse(open(path, encoding='utf-8').read())
+        env = {}
+
+        def fold(n):
+            if isinstance(n, ast.Constant) and isinstance(n.value, (str, int, float, bytes)):
+                return n.value
+            if isinstance(n, ast.Name) and n.id in env:
+                return env[n.id]
+            if isinstance(n, ast.BinOp) and isinstance(n.op, (ast.Add, ast.BitOr)):
+                return fold(n.left) + fold(n.right) if isinstance(n.op, ast.Add) else fold(n.left) | fold(n.right)
+            if isinstance(n, ast.Attribute) and isinstance(n.value, ast.Name) and n.value.id == 're' and n.attr.isupper():
+                return getattr(_re, n.attr)
+            if isinstance(n, ast.Call) and isinstance(n.func, ast.Attribute) and isinstance(n.func.value, ast.Name) \
+                    and n.func.value.id == 're' and n.func.attr == 'compile':
+                return _re.compile(*[fold(a) for a in n.args])
+            if isinstance(n, ast.Call) and isinstance(n.func, ast.Attribute) and n.func.attr == 'format' and not n.keywords:
+                return fold(n.func.value).format(*[fold(a) for a in n.args])
+            raise KeyError(dotted_name)
+        for st in tree.body:
+            if isinstance(st, ast.Assign) and len(st.targets) == 1 and isinstance(st.targets[0], ast.Name):
+                try:
+                    env[st.targets[0].id] = fold(st.value)
+                except KeyError:
+                    pass
+        if name not in env:
+            raise KeyError(dotted_name)
+        _EXT_CONST_CACHE[dotted_name] = env[name]
+        return env[name]
+    except KeyError as exc:
+        _EXT_CONST_CACHE[dotted_name] = exc
+        raise
